@@ -64,7 +64,8 @@ Fixpoint valid_from (t : sstate) (ops : list op) : bool :=
 Definition valid_ops (ops : list op) : bool := valid_from sempty ops.
 
 (* the ideal observation: both walks are the sequence and its mirror image, Len its length, the
-   Values those given at creation, the ends have no outer neighbour, a removed node is isolated *)
+   Values those given at creation, the ends have no outer neighbour, every handle outside the sequence
+   (removed by Remove or dropped by Clear) is isolated *)
 Definition sobs (t : sstate) : obs :=
   mkObs false (sl t) (rev (sl t)) (Z.of_nat (length (sl t)))
         (map (fun h => nth h (svals t) 0) (sl t)) true true true.
